@@ -1,1 +1,44 @@
-// harnesses for unit round_robin (mounted under cfg(kani) by the hook in /repo)
+//! K5 — `RoundRobin::call` (tarpc/src/client/stub/load_balance.rs), mounted inside `mod round_robin`.
+use super::*;
+use crate::client::stub::Stub;
+use crate::verif_kani_support::{any_instant, run};
+use std::cell::Cell;
+
+pub struct Rec<'a> {
+    pub idx: u8,
+    pub hit: &'a Cell<u8>,
+    pub seen_req: &'a Cell<u32>,
+}
+impl<'a> stub::Stub for Rec<'a> {
+    type Req = u32;
+    type Resp = u32;
+    async fn call(&self, _ctx: context::Context, request: u32) -> Result<u32, RpcError> {
+        self.hit.set(self.idx);
+        self.seen_req.set(request);
+        Ok(request)
+    }
+}
+
+/// C20: successive calls on a 3-backend round-robin stub go to backends 0,1,2,0 and forward
+/// the request unchanged (BOUNDED: 3 backends, 4 calls; the arithmetic for every count is
+/// k5_cycle_next_is_counter_mod_len).
+#[kani::proof]
+#[kani::unwind(8)]
+fn k5_round_robin_call_uses_next() {
+    let hit = Cell::new(255u8);
+    let seen = Cell::new(0u32);
+    let rr = RoundRobin::new(vec![
+        Rec { idx: 0, hit: &hit, seen_req: &seen },
+        Rec { idx: 1, hit: &hit, seen_req: &seen },
+        Rec { idx: 2, hit: &hit, seen_req: &seen },
+    ]);
+    let ctx = context::Context { deadline: any_instant(), trace_context: Default::default() };
+    let mut k = 0u8;
+    while k < 4 {
+        let req: u32 = kani::any();
+        let out = run(rr.call(ctx, req));
+        assert!(hit.get() == k % 3, "C20: call k goes to backend k % 3");
+        assert!(seen.get() == req && matches!(out, Ok(v) if v == req), "C20: request and result pass through unchanged");
+        k += 1;
+    }
+}
